@@ -16,6 +16,7 @@ import (
 	"unicode/utf8"
 
 	vaxis "git.sr.ht/~rockorager/vaxis"
+	"git.sr.ht/~rockorager/vaxis/octreequant"
 	"verif/harness/hx"
 )
 
@@ -427,7 +428,7 @@ func genPixels(cfg *hx.Config, s *hx.Stream, direct *[]hx.DirectViolation) map[s
 // ---------------------------------------------------------------- stream placement
 
 type token struct {
-	kind int // 0 other, 1 CUP, 2 APC
+	kind int // 0 other, 1 CUP, 2 APC, 3 DCS
 	a, b int
 	body string
 }
@@ -442,6 +443,15 @@ func tokenize(b []byte) []token {
 				j++
 			}
 			out = append(out, token{kind: 2, body: string(b[i+2 : j])})
+			i = j + 2
+			continue
+		}
+		if b[i] == 0x1b && i+1 < len(b) && b[i+1] == 'P' {
+			j := i + 2
+			for j+1 < len(b) && !(b[j] == 0x1b && b[j+1] == '\\') {
+				j++
+			}
+			out = append(out, token{kind: 3, body: string(b[i+2 : j])})
 			i = j + 2
 			continue
 		}
@@ -488,6 +498,19 @@ func kv(body string) map[string]string {
 func events(b []byte) (evs [][4]int, uploads []int) {
 	toks := tokenize(b)
 	for i, t := range toks {
+		if t.kind == 3 {
+			// a sixel string: parameters, 'q', data
+			k := strings.IndexByte(t.body, 'q')
+			if k < 0 || strings.Trim(t.body[:k], "0123456789;") != "" {
+				continue
+			}
+			if i > 0 && toks[i-1].kind == 1 {
+				evs = append(evs, [4]int{1, 0, toks[i-1].b - 1, toks[i-1].a - 1})
+			} else {
+				evs = append(evs, [4]int{9, 0, 0, 0})
+			}
+			continue
+		}
 		if t.kind != 2 || !strings.HasPrefix(t.body, "G") {
 			continue
 		}
@@ -518,17 +541,32 @@ func events(b []byte) (evs [][4]int, uploads []int) {
 	return
 }
 
-func genPlacement(cfg *hx.Config, s *hx.Stream, direct *[]hx.DirectViolation) (doubleUploads int) {
+type placeable interface {
+	Draw(vaxis.Window)
+	Resize(w int, h int)
+	CellSize() (int, int)
+	VerifID() uint64
+	VerifEncoding() bool
+}
+
+func genPlacement(cfg *hx.Config, s *hx.Stream, direct *[]hx.DirectViolation, sixel bool) (doubleUploads int) {
 	n := 250
 	if cfg.Thorough() {
 		n = 5000
+	}
+	if sixel {
+		n /= 2
+	}
+	stream := "placement"
+	if sixel {
+		stream = "sixel"
 	}
 	const rows, cols = 24, 80
 	for c := 0; c < n; c++ {
 		vx, fc := newVaxis(rows, cols)
 		nimg := 1 + cfg.Rand.Intn(3)
 		type im struct {
-			k        *vaxis.KittyImage
+			k        placeable
 			col, row int
 			shown    bool
 			resized  bool
@@ -536,7 +574,15 @@ func genPlacement(cfg *hx.Config, s *hx.Stream, direct *[]hx.DirectViolation) (d
 		imgs := make([]*im, nimg)
 		for i := range imgs {
 			src := image.NewRGBA(image.Rect(0, 0, 8+cfg.Rand.Intn(60), 8+cfg.Rand.Intn(60)))
-			imgs[i] = &im{k: vx.NewKittyGraphic(src), col: cfg.Rand.Intn(40), row: cfg.Rand.Intn(12)}
+			for j := 0; j < len(src.Pix); j += 4 {
+				src.Pix[j], src.Pix[j+1], src.Pix[j+2], src.Pix[j+3] = uint8(j), uint8(j>>4), uint8(i*90), 255
+			}
+			imgs[i] = &im{col: cfg.Rand.Intn(40), row: cfg.Rand.Intn(12)}
+			if sixel {
+				imgs[i].k = vx.NewSixel(src)
+			} else {
+				imgs[i].k = vx.NewKittyGraphic(src)
+			}
 			imgs[i].k.Resize(1+cfg.Rand.Intn(6), 1+cfg.Rand.Intn(4))
 			waitIdle(imgs[i].k.VerifEncoding)
 			imgs[i].resized = true
@@ -560,7 +606,8 @@ func genPlacement(cfg *hx.Config, s *hx.Stream, direct *[]hx.DirectViolation) (d
 		}
 		for f := 0; f < nframes; f++ {
 			root := vx.Window()
-			if clearEvery || cfg.Rand.Intn(3) == 0 {
+			cleared := clearEvery || cfg.Rand.Intn(3) == 0
+			if cleared {
 				root.Clear()
 				addOp(0, 0, 0, 0, 0, 0)
 			} else {
@@ -598,6 +645,29 @@ func genPlacement(cfg *hx.Config, s *hx.Stream, direct *[]hx.DirectViolation) (d
 				addOp(1, int(m.k.VerifID()), m.col, m.row, w, h)
 			}
 			snap := vx.VerifGraphicsNext()
+			if sixel && cleared {
+				// Sixel.Draw marks exactly the cells of the drawn rectangles.  (Only on frames
+				// that start from a cleared screen: a placement left over from an earlier frame
+				// re-marks cells at render time with the image's current size, see writeFunc.)
+				scr := vx.VerifScreenNext()
+				want := map[[2]int]bool{}
+				for _, p := range snap {
+					for y := 0; y < p.H; y++ {
+						for x := 0; x < p.W; x++ {
+							want[[2]int{p.Col + x, p.Row + y}] = true
+						}
+					}
+				}
+				for y := range scr {
+					for x := range scr[y] {
+						if scr[y][x].Sixel != want[[2]int{x, y}] {
+							*direct = append(*direct, hx.DirectViolation{Class: "sixel-cells",
+								Case: map[string]interface{}{"ops": opsJ, "cell": []int{x, y}, "marked": scr[y][x].Sixel},
+								What: "the cells marked by Sixel.Draw are not the cells of the drawn image rectangles"})
+						}
+					}
+				}
+			}
 			refresh := cfg.Rand.Intn(7) == 0
 			if refresh {
 				vx.Refresh()
@@ -649,7 +719,7 @@ func genPlacement(cfg *hx.Config, s *hx.Stream, direct *[]hx.DirectViolation) (d
 			tl = append(tl, t)
 		}
 		s.Add(hx.Tuple(hx.List(ops), hx.List(frames)),
-			map[string]interface{}{"stream": "placement", "ops": opsJ, "frames": framesJ},
+			map[string]interface{}{"stream": stream, "ops": opsJ, "frames": framesJ},
 			tags["move"] || tags["drop"] || tags["refresh"] || tags["resize"], tl...)
 	}
 	return
@@ -707,6 +777,67 @@ func genFloat(cfg *hx.Config, s *hx.Stream) {
 	}
 }
 
+// genQuant: the sixel path quantises with octreequant.Paletted(img, 254).  No Coq model;
+// direct checks: indices are valid, the palette has at most 254 entries, and an image
+// with few colours is reproduced exactly (transparent pixels map to a transparent entry).
+func genQuant(cfg *hx.Config, direct *[]hx.DirectViolation) int {
+	n := 150
+	if cfg.Thorough() {
+		n = 2500
+	}
+	for i := 0; i < n; i++ {
+		W, H := 1+cfg.Rand.Intn(24), 1+cfg.Rand.Intn(24)
+		k := 1 + cfg.Rand.Intn(12)
+		if i%5 == 0 {
+			k = 1 + cfg.Rand.Intn(254)
+		}
+		cols := make([]color.NRGBA, k)
+		for j := range cols {
+			cols[j] = color.NRGBA{uint8(cfg.Rand.Intn(256)), uint8(cfg.Rand.Intn(256)), uint8(cfg.Rand.Intn(256)), 255}
+		}
+		transparent := i%3 == 0
+		img := image.NewNRGBA(image.Rect(0, 0, W, H))
+		for y := 0; y < H; y++ {
+			for x := 0; x < W; x++ {
+				if transparent && cfg.Rand.Intn(6) == 0 {
+					img.SetNRGBA(x, y, color.NRGBA{})
+				} else {
+					img.SetNRGBA(x, y, cols[cfg.Rand.Intn(k)])
+				}
+			}
+		}
+		bad := ""
+		var pal *image.Paletted
+		if panicked, msg := hx.Catch(func() { pal = octreequant.Paletted(img, 254) }); panicked {
+			bad = "panic: " + msg
+		} else if len(pal.Palette) > 254 {
+			bad = fmt.Sprintf("palette of %d entries", len(pal.Palette))
+		} else {
+			for y := 0; y < H && bad == ""; y++ {
+				for x := 0; x < W; x++ {
+					ix := int(pal.ColorIndexAt(x, y))
+					if ix >= len(pal.Palette) {
+						bad = fmt.Sprintf("pixel %d,%d has index %d outside the palette of %d", x, y, ix, len(pal.Palette))
+						break
+					}
+					r, g, b, a := pal.Palette[ix].RGBA()
+					r0, g0, b0, a0 := img.At(x, y).RGBA()
+					if a != a0 || (a0 != 0 && (r != r0 || g != g0 || b != b0)) {
+						bad = fmt.Sprintf("pixel %d,%d: %v became %v", x, y, img.At(x, y), pal.Palette[ix])
+						break
+					}
+				}
+			}
+		}
+		if bad != "" {
+			_, ij := imgTerm(img)
+			*direct = append(*direct, hx.DirectViolation{Class: "sixel-quantisation",
+				Case: map[string]interface{}{"image": ij, "colours": k}, What: "octreequant.Paletted(img, 254): " + bad})
+		}
+	}
+	return n
+}
+
 func main() {
 	os.Unsetenv("COLORTERM")
 	os.Unsetenv("VAXIS_GRAPHICS")
@@ -727,7 +858,13 @@ func main() {
 
 	pl := hx.NewStream("placement", "model.Image", "placement_case", "c20_placement_mismatches", "c20_placement_violations")
 	pl.ShardMax = 400
-	extra["kitty_double_uploads_in_one_frame"] = genPlacement(cfg, pl, &direct)
+	extra["kitty_double_uploads_in_one_frame"] = genPlacement(cfg, pl, &direct, false)
+
+	sx := hx.NewStream("sixel", "model.Image", "placement_case", "c20_sixel_mismatches", "c20_sixel_violations")
+	sx.ShardMax = 400
+	genPlacement(cfg, sx, &direct, true)
+
+	extra["quantiser_images_checked"] = genQuant(cfg, &direct)
 
 	fs := hx.NewStream("float", "model.Image", "float_case", "c20_float_mismatches", "c20_float_violations")
 	fs.ShardMax = 1500
@@ -739,6 +876,8 @@ func main() {
 		"cellsize: Resize+CellSize of real half-block/full-block/kitty/sixel images (non-trivial = scaled); "+
 		"pixels: block images of random NRGBA/RGBA/NRGBA64 pixels over every alpha level, drawn through Window.SetCell onto a sentinel screen and read back (all non-trivial); "+
 		"placement: random add/keep/move/resize/drop/refresh histories of kitty images on a fake console, control sequences parsed from the output (non-trivial = contains a move, drop, resize or refresh); "+
+		"sixel: the same histories with Sixel images, sixel strings located in the output, marked cells compared with the drawn rectangles; "+
+		"quantiser (direct checks, no model): octreequant.Paletted on images of at most 254 colours must reproduce every pixel; "+
 		"float: hardware float64(a)/float64(b)*float64(k) against the integer-only rounding model (non-trivial = inexact)",
-		[]*hx.Stream{rs, cs, ps, pl, fs}, extra, direct)
+		[]*hx.Stream{rs, cs, ps, pl, sx, fs}, extra, direct)
 }
